@@ -258,13 +258,18 @@ def run(tier, seed, only=None):
     kernel_lemmas(rep, timeout)
     cfgs = [("1symL_2x2", [(2, 2, True, False)]), ("1full_2x3", [(2, 3, False, False)]), ("1symL_3x2", [(3, 2, True, False)]),
             ("1symL_4x3", [(4, 3, True, False)]), ("1symR_3x3", [(3, 3, True, True)]),
-            ("symL_2x2+full_2x3+symR_3x2", [(2, 2, True, False), (2, 3, False, False), (3, 2, True, True)])]
+            ("symL_2x2+full_2x3+symR_3x2", [(2, 2, True, False), (2, 3, False, False), (3, 2, True, True)]),
+            # a full-span surface need not straddle y = 0: the dictionary's mesh of this one lies wholly at y > 0
+            ("1full_2x3_offcentre", [(2, 3, False, False)])]
     if tier == "thorough":
         cfgs += [("symL_2x2+full_2x3", [(2, 2, True, False), (2, 3, False, False)]), ("1symR_2x3", [(2, 3, True, True)]), ("1full_3x3", [(3, 3, False, False)]),
                  ("1full_4x5", [(4, 5, False, False)]), ("1symL_5x4", [(5, 4, True, False)]), ("1full_2x7", [(2, 7, False, False)]),
                  ("full_3x3+symL_4x2+full_2x5", [(3, 3, False, False), (4, 2, True, False), (2, 5, False, False)])]
     for (cn, spec) in cfgs:
         surfaces = [K.surface(nx, ny, symm, right=right, name="s%d" % k) for k, (nx, ny, symm, right) in enumerate(spec)]
+        if cn.endswith("offcentre"):
+            for s_ in surfaces:
+                s_["mesh"] = s_["mesh"] + np.array([0.0, 7.0, 0.0])
         P = pipe.vlm_states(surfaces, rotational=True)
         P.encode(rep)
         meshes = {s["name"]: symarray(s["name"] + "_def_mesh", s["mesh"].shape) for s in surfaces}
